@@ -421,6 +421,9 @@ fn dec_after_error_case(rng: &mut Rng, l: Limits, thorough: bool, out: &mut Vec<
 
 pub fn enc_case(rng: &mut Rng, _idx: u64, thorough: bool) -> Vec<String> {
     let mut ops = Vec::new();
+    if rng.below(1000) < (if thorough { 6 } else { 4 }) {
+        return enc_boundary_random(rng, thorough);
+    }
     if rng.chance(1, 6) {
         // `find_stuff_sequence` on its own: FE / FD runs, pairs at every position incl. the last two bytes
         let n = match rng.below(4) {
@@ -485,6 +488,248 @@ pub fn enc_enumerated(thorough: bool) -> Vec<Vec<String>> {
     let (mut cases, back) = zero_cases("zenc", thorough);
     cases.extend(enc_enumerated_pieces(thorough));
     cases.extend(back);
+    cases.extend(enc_boundary_cases(thorough));
+    cases.extend(chunk_len_sweep("zenc", thorough));
+    cases
+}
+
+// ---------------------------------------------------------------------------
+// piece-boundary sweep (track gen3): what sits at the END of one piece and at the START of the
+// next one, for every size class of the second piece, where the BODY of every piece is constant
+// filler without any FE / FD - so a pre-filter of the form "no 0xFE anywhere in this piece" (or
+// "piece longer than N") passes, and what remains is the hand-over of the held-back FE between calls.
+
+/// `(end of piece A, start of piece B)`, as hex parts.
+const BOUNDARIES: [(&str, &str); 8] = [
+    ("fe", "fd"),         // the held-back FE is completed into a stuff sequence by the next piece
+    ("fe", "fefd"),       // held FE, then FE (flushes the first) FD
+    ("fe", "42"),         // held FE, then something harmless
+    ("41", "fd"),         // nothing held, piece starts with FD
+    ("fefdfe", "fd"),     // a complete stuff sequence, then FE | FD again
+    ("fefe", "fd"),       // two FE: the second one is held
+    ("fd", "fe"),         // FD | FE: not a stuff sequence
+    ("fe", "-"),          // held FE, then an EMPTY piece (the next op line brings FD)
+];
+
+/// Size classes of the second piece (bytes, including its boundary bytes).
+fn boundary_sizes(thorough: bool) -> Vec<usize> {
+    let mut v = vec![1usize, 2, 64, 256, 4096, 64008, 65535, 65536, 65537];
+    if thorough {
+        v.extend([63, 65, 255, 257, 64007, 64009, 131072, 131073, 262144, 1 << 20, (1 << 20) + 1]);
+    }
+    v.sort_unstable();
+    v
+}
+
+/// The second piece: `start` bytes, then constant filler up to `size` bytes in all, the filler
+/// interrupted (body kinds 1, 2) by a lone FD / a stuff sequence in the middle, ending (tail kinds
+/// 1, 2) in FE / FD.  Returned as a token for the op line.
+fn boundary_piece(start: &str, size: usize, body_kind: usize, tail_kind: usize) -> String {
+    let start_len = if start == "-" { 0 } else { start.len() / 2 };
+    if start_len == 0 {
+        return "-".to_string();
+    }
+    let mut parts: Vec<String> = vec![start.to_string()];
+    let tail = match tail_kind {
+        1 => "fe",
+        2 => "fd",
+        _ => "",
+    };
+    let mid = match body_kind {
+        1 => "fd",
+        2 => "fefd",
+        _ => "",
+    };
+    let fixed = start_len + tail.len() / 2 + mid.len() / 2;
+    if size > fixed {
+        let fill = size - fixed;
+        if mid.is_empty() {
+            parts.push(const_token(0x41, fill));
+        } else {
+            let a = fill / 2;
+            if a > 0 {
+                parts.push(const_token(0x41, a));
+            }
+            parts.push(mid.to_string());
+            if fill - a > 0 {
+                parts.push(const_token(0x43, fill - a));
+            }
+        }
+        if !tail.is_empty() {
+            parts.push(tail.to_string());
+        }
+    }
+    parts.join("+")
+}
+
+/// One run: piece A (filler of `a_fill` bytes + the boundary's end bytes) by method `ma`, piece B
+/// by method `mb`, optionally a third piece, `finish`.
+fn boundary_run(ops: &mut Vec<String>, bnd: (&str, &str), a_fill: usize, size: usize, ma: &str, mb: &str, body_kind: usize, tail_kind: usize, third: usize, drain: usize) {
+    let l = Limits::prod();
+    ops.push(l.op());
+    let a = if a_fill == 0 { bnd.0.to_string() } else { format!("{}+{}", const_token(0x61, a_fill), bnd.0) };
+    ops.push(format!("enc {} {}", ma, a));
+    match drain {
+        1 => ops.push("drain_slices 1".into()),
+        2 => ops.push("drain_bytes 3".into()),
+        _ => {}
+    }
+    if bnd.1 == "-" {
+        // empty piece in between, then the piece that starts with FD
+        ops.push(format!("enc {} -", mb));
+        ops.push(format!("enc {} {}", mb, boundary_piece("fd", size, body_kind, tail_kind)));
+    } else {
+        ops.push(format!("enc {} {}", mb, boundary_piece(bnd.1, size, body_kind, tail_kind)));
+    }
+    match third {
+        1 => ops.push(format!("enc {} fd", ma)),
+        2 => ops.push(format!("enc {} fefd41", mb)),
+        3 => ops.push(format!("enc {} fd+{}", mb, const_token(0x44, 65536))),
+        _ => {}
+    }
+    ops.push("finish".into());
+}
+
+/// The grid boundary x size class x (method of A, method of B) x where the boundary falls in the
+/// current chunk x body / tail / third-piece kinds.  Quick tier: every boundary x 9 size classes with
+/// two method pairs each (B by `encode` and one rotating pair); thorough tier: 20 size classes up to
+/// 1 MiB + 1 with 18 of the 36 method pairs per cell, alternating halves (4 for the sizes above 131073).  The remaining dimensions
+/// rotate so that every value meets every boundary and every size class.
+pub fn enc_boundary_cases(thorough: bool) -> Vec<Vec<String>> {
+    let mut cases = Vec::new();
+    let mut rot = 0usize;
+    // filler in front of the boundary bytes of piece A: none; so that the boundary straddles the
+    // end of the full first chunk (252 bytes) in its three alignments; a little
+    let a_fills = [0usize, 251, 250, 3, 249];
+    for (bi, bnd) in BOUNDARIES.iter().enumerate() {
+        for (si, size) in boundary_sizes(thorough).into_iter().enumerate() {
+            // production encoder: six input methods (S / T = through `dyn ZeroCopySink`)
+            const EM: [&str; 6] = ["b", "c", "a", "r", "S", "T"];
+            let npairs = if !thorough { 2 } else if size > 131073 { 4 } else { 18 };
+            let mut ops = Vec::new();
+            for k in 0..npairs {
+                rot += 1;
+                // thorough: half of the 36 pairs per cell, the other half in the neighbouring cell
+                let pair = if thorough && npairs == 18 { (2 * k + (bi + si) % 2) % 36 } else if k == 0 { 6 * (rot % 6) } else { (rot * 5 + bi + si) % 36 };
+                let (ma, mb) = (EM[pair / 6], EM[pair % 6]);
+                let a_fill = a_fills[(rot + bi) % a_fills.len()];
+                let body_kind = if (rot / 3) % 4 == 3 { 1 + (rot / 12) % 2 } else { 0 };
+                let tail_kind = if (rot / 2) % 3 == 2 { 1 + (rot / 6) % 2 } else { 0 };
+                let third = if size <= 131073 || !thorough { (rot / 5) % 4 } else { (rot / 5) % 3 };
+                let drain = (rot / 7) % 3;
+                boundary_run(&mut ops, *bnd, a_fill, size, ma, mb, body_kind, tail_kind, third, drain);
+                if size >= 64007 && ops.len() >= 12 {
+                    cases.push(std::mem::take(&mut ops));
+                }
+            }
+            if !ops.is_empty() {
+                cases.push(ops);
+            }
+        }
+    }
+    cases
+}
+
+/// Random point of the same space (sizes jittered around the classes; quick tier: up to 131073).
+fn enc_boundary_random(rng: &mut Rng, thorough: bool) -> Vec<String> {
+    let mut ops = Vec::new();
+    let bnd = *rng.pick(&BOUNDARIES);
+    // (the list model costs about 2 us per byte on MiB-sized pieces: the big classes are rare)
+    let classes: &[usize] = if thorough && rng.chance(1, 12) {
+        &[262144, 1 << 20]
+    } else if thorough {
+        &[1, 2, 64, 256, 4096, 64008, 65535, 65536, 65537, 131072]
+    } else {
+        &[1, 2, 64, 256, 4096, 64008, 65535, 65536, 65537, 131072]
+    };
+    let base = *rng.pick(classes);
+    let size = match rng.below(4) {
+        0 => base,
+        1 => base + rng.below(3) as usize,
+        2 => base.saturating_sub(rng.below(3) as usize).max(1),
+        _ => base + rng.below(base as u64 / 8 + 2) as usize,
+    };
+    let a_fill = match rng.below(5) {
+        0 => 0,
+        1 => rng.range(248, 253) as usize,
+        2 => rng.range(0, 6) as usize,
+        3 => 64008 + 252 - rng.below(4) as usize,
+        _ => rng.range(0, 600) as usize,
+    };
+    let em = ["b", "c", "a", "r", "S", "T"];
+    let (ma, mb) = (*rng.pick(&em), *rng.pick(&em));
+    let body_kind = if rng.chance(1, 4) { rng.range(1, 2) as usize } else { 0 };
+    let tail_kind = if rng.chance(1, 3) { rng.range(1, 2) as usize } else { 0 };
+    let third = rng.below(if size > 131073 { 3 } else { 4 }) as usize;
+    boundary_run(&mut ops, bnd, a_fill, size, ma, mb, body_kind, tail_kind, third, rng.below(3) as usize);
+    ops
+}
+
+// ---------------------------------------------------------------------------
+// every chunk length / every header value (track gen3)
+
+/// `zenc` / `zdec` on `252 + k` zero bytes: the first chunk is full, the second one has exactly `k`
+/// bytes, so its two-byte header spells `k` - for EVERY `k` in 0..=64008 in the thorough tier (the
+/// model side is the closed form `Zeros.zeroSummary`, so this is cheap), and in the quick tier for
+/// every `k` within 1 of a multiple of 253 (every value of the high digit next to a low digit 252 /
+/// 0 / 1) plus the powers of two and their neighbours.  `zdec` alternates between delivering the
+/// header in one call and split between its two bytes (the optional third word is where the wire
+/// is cut: 253 = before the header, 254 = between its bytes, 255 = after it).
+pub fn chunk_len_sweep(verb: &str, thorough: bool) -> Vec<Vec<String>> {
+    let prod = Limits::prod();
+    let mut ks: Vec<usize> = Vec::new();
+    if thorough {
+        ks.extend(0..=64008usize);
+    } else {
+        for q in 0..=253usize {
+            for d in [-1i64, 0, 1] {
+                let k = 253 * q as i64 + d;
+                if (0..=64008).contains(&k) {
+                    ks.push(k as usize);
+                }
+            }
+        }
+        for sh in 1..16 {
+            for d in [-1i64, 0, 1] {
+                let k = (1i64 << sh) + d;
+                if (0..=64008).contains(&k) {
+                    ks.push(k as usize);
+                }
+            }
+        }
+        ks.sort_unstable();
+        ks.dedup();
+    }
+    let mut cases = Vec::new();
+    let mut ops = Vec::new();
+    for (i, k) in ks.iter().enumerate() {
+        ops.push(prod.op());
+        let m = if i % 5 == 4 { "c" } else { "b" };
+        if verb == "zdec" {
+            let cut = [254usize, 253, 254, 255][i % 4];
+            ops.push(format!("zdec {} {} {}", m, 252 + k, cut));
+        } else if thorough {
+            // with FE as the last byte of the first chunk (same chunking; the header under test follows an
+            // FE) for every k; all zeros for every fourth k and around the multiples of 253
+            ops.push(format!("zenc {} {} fe", m, 252 + k));
+            if k % 4 == 0 || k % 253 <= 1 || k % 253 == 252 {
+                ops.push(prod.op());
+                ops.push(format!("zenc {} {}", m, 252 + k));
+            }
+        } else {
+            ops.push(format!("zenc {} {}", m, 252 + k));
+            if i % 2 == 0 {
+                ops.push(prod.op());
+                ops.push(format!("zenc {} {} fe", m, 252 + k));
+            }
+        }
+        if ops.len() >= 128 {
+            cases.push(std::mem::take(&mut ops));
+        }
+    }
+    if !ops.is_empty() {
+        cases.push(ops);
+    }
     cases
 }
 
@@ -810,6 +1055,158 @@ pub fn dec_enumerated(thorough: bool) -> Vec<Vec<String>> {
     let (mut cases, back) = zero_cases("zdec", thorough);
     cases.extend(dec_enumerated_strings(thorough));
     cases.extend(back);
+    cases.extend(dec_header_sweep(thorough));
+    cases.extend(chunk_len_sweep("zdec", thorough));
+    cases
+}
+
+/// Header parsing of the decoder, value by value (track gen3; the valid two-byte values with their
+/// full body are `chunk_len_sweep("zdec")`):
+/// * the first-chunk header: every byte 0..=255, production limits and limits (3, 5), followed by
+///   that many filler bytes (and an empty chunk after a full one); header and body in one call, and
+///   split right after the header byte;
+/// * the two-byte header after an empty first chunk, production limits, header only (accepted /
+///   rejected, error variant and payload; `finish` then says CutShort unless the size is 0): all
+///   65536 values in the thorough tier, in the quick tier every value with one digit in
+///   {0, 1, 2, 251..255} or on the diagonal; one call `00 h0 h1`, and split between the two bytes;
+/// * production limits, low digit 253..255 (out of radix) x high digit (quick: 10 values; thorough:
+///   all) WITH the body of the size `h0 + 253 * h1` the header would alias;
+/// * limits (2, 507): every header with high digit 0..=3 (sizes 0..=1011: all valid ones and the
+///   over-long ones next to them) WITH a filler body of that size, unsplit and split inside the header.
+fn dec_header_sweep(thorough: bool) -> Vec<Vec<String>> {
+    let mut cases = Vec::new();
+    let mut ops: Vec<String> = Vec::new();
+    let mut runs = 0usize;
+    let mut flush = |ops: &mut Vec<String>, runs: &mut usize, cases: &mut Vec<Vec<String>>, force: bool| {
+        if (*runs >= 64 || force) && !ops.is_empty() {
+            cases.push(std::mem::take(ops));
+            *runs = 0;
+        }
+    };
+    let mut rot = 0usize;
+    // first-chunk header
+    for l in [Limits::prod(), Limits::custom(3, 5).unwrap()] {
+        for h in 0..=255usize {
+            rot += 1;
+            // the body an over-long header announces is supplied too (and the empty chunk that must
+            // follow a full one): a decoder that let the header pass would accept the whole message
+            let body = h;
+            let mut wire = format!("{:02x}", h);
+            if body > 0 {
+                wire.push('+');
+                wire.push_str(&const_token(0x41, body));
+            }
+            if h >= l.mi {
+                wire.push_str("+0000");
+            }
+            let m = METHODS[rot % 4];
+            ops.push(l.op());
+            ops.push(format!("dec {} {}", m, wire));
+            ops.push("finish".into());
+            ops.push(l.op());
+            ops.push(format!("dec {} {:02x}", METHODS[(rot / 4) % 4], h));
+            let rest = wire.split_once('+').map(|x| x.1.to_string()).unwrap_or_else(|| "-".to_string());
+            ops.push(format!("dec {} {}", m, rest));
+            ops.push("finish".into());
+            runs += 2;
+            flush(&mut ops, &mut runs, &mut cases, false);
+        }
+    }
+    flush(&mut ops, &mut runs, &mut cases, true);
+    // two-byte header, production limits, header only
+    let edge = |d: usize| d <= 2 || d >= 251;
+    let prod = Limits::prod();
+    for h1 in 0..=255usize {
+        for h0 in 0..=255usize {
+            if !thorough && !(edge(h0) || edge(h1) || h0 == h1 || h0 + h1 == 255) {
+                continue;
+            }
+            rot += 1;
+            ops.push(prod.op());
+            if rot % 2 == 0 {
+                ops.push(format!("dec {} 00{:02x}{:02x}", METHODS[(rot / 2) % 4], h0, h1));
+            } else {
+                ops.push(format!("dec {} 00{:02x}", METHODS[(rot / 2) % 4], h0));
+                ops.push(format!("dec {} {:02x}", METHODS[(rot / 8) % 4], h1));
+            }
+            ops.push("finish".into());
+            runs += 1;
+            if thorough {
+                // and the other delivery
+                ops.push(prod.op());
+                if rot % 2 == 1 {
+                    ops.push(format!("dec {} 00{:02x}{:02x}", METHODS[(rot / 2) % 4], h0, h1));
+                } else {
+                    ops.push(format!("dec {} 00", METHODS[(rot / 2) % 4]));
+                    ops.push(format!("dec {} {:02x}", METHODS[(rot / 2) % 4], h0));
+                    ops.push(format!("dec {} {:02x}", METHODS[(rot / 8) % 4], h1));
+                }
+                ops.push("finish".into());
+                runs += 1;
+            }
+            flush(&mut ops, &mut runs, &mut cases, false);
+        }
+    }
+    flush(&mut ops, &mut runs, &mut cases, true);
+    // production limits, out-of-radix LOW digit (253..255) with the body of the size it would alias
+    // (h0 + 253 * h1 <= 64008) and the ending that size calls for
+    for h0 in 253..=255usize {
+        for h1 in 0..=252usize {
+            if !thorough && !matches!(h1, 0 | 1 | 2 | 85 | 86 | 170 | 171 | 250 | 251 | 252) {
+                continue;
+            }
+            let size = h0 + 253 * h1;
+            if size > prod.ms {
+                continue;
+            }
+            rot += 1;
+            let mut tail = format!("{:02x}+{}", h1, const_token(0x42, size));
+            if size == prod.ms {
+                tail.push_str("+0000");
+            }
+            ops.push(prod.op());
+            if rot % 2 == 0 {
+                ops.push(format!("dec {} 00{:02x}+{}", METHODS[(rot / 2) % 4], h0, tail));
+            } else {
+                ops.push(format!("dec {} 00{:02x}", METHODS[(rot / 2) % 4], h0));
+                ops.push(format!("dec {} {}", METHODS[(rot / 8) % 4], tail));
+            }
+            ops.push("finish".into());
+            runs += 1;
+            flush(&mut ops, &mut runs, &mut cases, false);
+        }
+    }
+    flush(&mut ops, &mut runs, &mut cases, true);
+    // limits (2, 507): header + body
+    let l = Limits::custom(2, 507).unwrap();
+    for h1 in 0..=3usize {
+        for h0 in 0..=255usize {
+            rot += 1;
+            let size = h0 + 253 * h1;
+            // out-of-radix low digit: the body of the size it would alias is supplied all the same
+            let body = if size <= l.ms { size } else { 3 };
+            // first chunk: one byte (short, so a stuff sequence is implied), then the header under test
+            let mut tail = format!("{:02x}", h1);
+            if body > 0 {
+                tail.push('+');
+                tail.push_str(&const_token(0x42, body));
+            }
+            if size >= l.ms {
+                tail.push_str("+0000");
+            }
+            ops.push(l.op());
+            if rot % 2 == 0 {
+                ops.push(format!("dec {} 0141{:02x}+{}", METHODS[(rot / 2) % 4], h0, tail));
+            } else {
+                ops.push(format!("dec {} 0141{:02x}", METHODS[(rot / 2) % 4], h0));
+                ops.push(format!("dec {} {}", METHODS[(rot / 8) % 4], tail));
+            }
+            ops.push("finish".into());
+            runs += 1;
+            flush(&mut ops, &mut runs, &mut cases, false);
+        }
+    }
+    flush(&mut ops, &mut runs, &mut cases, true);
     cases
 }
 
